@@ -628,5 +628,25 @@ func init() {
 			}
 			c.depRule(p, "C13.equal", "the verdict depends on every coordinate of both points", f, sinkVerdict(), src...)
 		}
+		// unary predicates whose answer needs more than one coordinate: affine infinity is (0,0) while (0, ±√b)
+		// are ordinary points of P-384; the Edwards identities are (0, y, y); (0,0,0) is no projective point
+		for _, e := range []eq{
+			{"ecc/p384", "affinePoint", "isZero", []string{"x", "y"}},
+			{"ecc/goldilocks", "Point", "IsIdentity", []string{"x", "y", "z"}},
+			{"ecc/fourq", "pointR1", "IsIdentity", []string{"X", "Y", "Z"}},
+			{"ecc/bls12381", "G1", "isValidProjective", []string{"x", "y", "z"}},
+			{"ecc/bls12381", "G2", "isValidProjective", []string{"x", "y", "z"}},
+		} {
+			f := p.Func(e.pkg, e.typ, e.name)
+			if f == nil {
+				c.undecided("C13.equal", e.pkg+"."+e.typ+"."+e.name, "anchor does not resolve", "")
+				continue
+			}
+			var src []string
+			for _, fl := range e.fields {
+				src = append(src, "field:"+f.Params[0].Name()+"."+fl)
+			}
+			c.depRule(p, "C13.equal", "the verdict depends on every coordinate it needs", f, sinkVerdict(), src...)
+		}
 	}
 }
